@@ -77,6 +77,9 @@ pub enum Cell {
     /// one client TLS state used first against a listener without client authentication, then against a
     /// listener of the same process that requires client certificates
     TwoListeners { ident: Ident },
+    /// a ClientTlsConfig trusting only the wrong CA, and a clone of it that additionally trusts the right one;
+    /// the clone is used first, then the original
+    CloneFamily,
     /// https endpoint, no TLS configuration at all (eager or lazy channel)
     HttpsWithoutTls { lazy: bool },
     /// tonic client against tonic server with client authentication
@@ -117,6 +120,9 @@ fn all_cells() -> Vec<Cell> {
     for ident in [Ident::NoCert, Ident::Valid, Ident::ByOtherCa] {
         v.push(Cell::TwoListeners { ident });
     }
+    v.push(Cell::CloneFamily);
+    // a TLS client that offers only http/1.1 must not be served by the (HTTP/2-only) gRPC server
+    v.push(Cell::RawClient { ident: Ident::NoCert, auth: Auth::NoClientAuth, alpn: Alpn::Http11 });
     for ident in [Ident::NoCert, Ident::Valid, Ident::ByOtherCa] {
         for auth in [Auth::NoClientAuth, Auth::Required, Auth::Optional, Auth::RequiredEmptyCa] {
             v.push(Cell::Mutual { ident, auth });
@@ -430,6 +436,46 @@ fn run_two_listeners(c: &Case, ident: Ident) -> Result<(bool, usize, bool, usize
     }
 }
 
+/// Configs derived from one another by clone + builder calls are independent values.
+fn run_clone_family(c: &Case) -> Result<(bool, bool, usize, String), Failure> {
+    let sh = Shared::new(vec![HandlerScript { msgs: vec![RespMsg { data: Blob::of(b"pong"), pend: 0, delay_ms: 0 }], ..Default::default() }]);
+    let (net, incoming) = Net::new(vec![(c.c2s.clone(), c.s2c.clone())]);
+    let sh2 = sh.clone();
+    let res = rt::run_virtual(c.rt_seed, Duration::from_secs(3600), async move {
+        let server = tonic::transport::Server::builder()
+            .tls_config(ServerTlsConfig::new().identity(Identity::from_pem(SERVER_GOOD.0, SERVER_GOOD.1)))
+            .map_err(|e| format!("{e:?}"))?
+            .add_service(vt::raw_server::RawServer::new(sh2));
+        let t = tokio::spawn(async move { server.serve_with_incoming(incoming).await });
+        let base = ClientTlsConfig::new().ca_certificate(Certificate::from_pem(CA_B)).domain_name("good.test");
+        let wide = base.clone().ca_certificate(Certificate::from_pem(CA_A));
+        let call = |cfg: ClientTlsConfig, net: Net| async move {
+            let ep = match tonic::transport::Endpoint::from_static("https://good.test").tls_config(cfg) {
+                Ok(ep) => ep,
+                Err(e) => return (false, format!("tls_config: {e:?}")),
+            };
+            match ep.connect_with_connector(net.connector()).await {
+                Err(e) => (false, format!("connect: {e:?}")),
+                Ok(ch) => match vt::raw_client::RawClient::new(ch).unary(b"ping".to_vec()).await {
+                    Ok(_) => (true, String::new()),
+                    Err(s) => (false, format!("call: {s:?}")),
+                },
+            }
+        };
+        let (ok_wide, e1) = call(wide, net.clone()).await;
+        rt::quiesce().await;
+        let (ok_base, e2) = call(base, net.clone()).await;
+        rt::quiesce().await;
+        t.abort();
+        Ok::<_, String>((ok_wide, ok_base, format!("{e1} | {e2}")))
+    });
+    match res {
+        Err(_) => bail!("C15/never-resolves", "TLS scenario did not finish"),
+        Ok(Err(e)) => bail!("C15/clone-family-setup", "{e}"),
+        Ok(Ok((a, b, e))) => Ok((a, b, sh.log.lock().unwrap().len(), e)),
+    }
+}
+
 fn no_plaintext(seen: &Seen) -> Result<(), Failure> {
     let h = &seen.c2s_head;
     ensure!(!h.windows(14).any(|w| w == b"PRI * HTTP/2.0"), "C15/plaintext-fallback", "the client wrote a plaintext HTTP/2 preface on an https endpoint");
@@ -481,6 +527,12 @@ pub fn run(c: &Case, o: &mut Outcome) -> Result<(), Failure> {
                 ensure!(seen.hits == 0, format!("C15/request-reached-peer-without-authentication/{why}"), "a request was transmitted although {why}");
             }
         }
+        Cell::CloneFamily => {
+            o.label("client_config_clone_family");
+            let (ok_wide, ok_base, hits, errs) = run_clone_family(c)?;
+            ensure!(ok_wide, "C15/valid-configuration-refused", "a config trusting the right CA (plus another) was refused: {errs}");
+            ensure!(!ok_base && hits == 1, "C15/call-succeeded-without-authentication/untrusted-chain-after-clone", "a config that trusts only another CA carried a call after a clone of it (extended with the right CA) had been used ({hits} handler runs): {errs}");
+        }
         Cell::TwoListeners { ident } => {
             o.label("two_listeners_one_client_state");
             let (ok_a, hits_a, ok_b, hits_b, errs) = run_two_listeners(c, *ident)?;
@@ -515,6 +567,8 @@ pub fn run(c: &Case, o: &mut Outcome) -> Result<(), Failure> {
             }
             // Some(true) = must be served, Some(false) = must be refused, None = unspecified by the statement
             let expect: Option<bool> = match (auth, ident) {
+                // the server speaks gRPC over HTTP/2 only and says so in ALPN: no common protocol, no service
+                _ if raw == Some(Alpn::Http11) => Some(false),
                 (Auth::NoClientAuth, _) => Some(true),
                 (Auth::Required, Ident::Valid) => Some(true),
                 (Auth::Required, _) => Some(false),
@@ -557,7 +611,7 @@ impl Prop for C15 {
         run(c, o)
     }
     fn rule() -> &'static str {
-        "finite configuration matrix enumerated completely, each cell under two fixed pipe schedules, plus random cells under generated schedules and scheduler seeds; real rustls handshakes (tonic tls-ring) over the in-memory pipe with a committed EC fixture PKI. (A) tonic client {roots: right CA, other CA, none} x {domain configured good/bad, taken from URI good/bad} x raw-rustls server ALPN {h2, none, http/1.1} x assume_http2 x {server certificate for the right / another name}, and an https endpoint without TLS config; (B) tonic client identity {none, valid, issued by another CA} x tonic server client-auth {none, required, optional}; (C) raw rustls+h2 clients (same identities, ALPN h2/none) against the tonic server. Oracle = independent trust model: call succeeds iff chain and name and (ALPN h2 or assume_http2) [and client-auth satisfied]; otherwise the call fails, no request reaches the peer/handler, and the first byte the client wrote is a TLS handshake record (never a plaintext HTTP/2 preface); handlers see peer_certs iff a client certificate was verified. Non-trivial: every cell other than all-defaults-valid."
+        "finite configuration matrix enumerated completely, each cell under two fixed pipe schedules, plus random cells under generated schedules and scheduler seeds; real rustls handshakes (tonic tls-ring) over the in-memory pipe with a committed EC fixture PKI. (A) tonic client {roots: right CA, other CA, none} x {domain configured good/bad, taken from URI good/bad} x raw-rustls server ALPN {h2, none, http/1.1} x assume_http2 x {server certificate for the right / another name}, and an https endpoint without TLS config; (B) tonic client identity {none, valid, issued by another CA} x tonic server client-auth {none, required, optional}; (C) raw rustls+h2 clients (same identities, ALPN h2/none) against the tonic server. Oracle = independent trust model: call succeeds iff chain and name and (ALPN h2 or assume_http2) [and client-auth satisfied]; otherwise the call fails, no request reaches the peer/handler, and the first byte the client wrote is a TLS handshake record (never a plaintext HTTP/2 preface); handlers see peer_certs iff a client certificate was verified. Non-trivial: every cell other than all-defaults-valid. (D) a ClientTlsConfig trusting only another CA and a clone of it extended with the right CA, used in that order: the original must still be refused; a raw TLS client offering only http/1.1 must not be served."
     }
     fn assumptions() -> Vec<String> {
         vec![
@@ -567,7 +621,7 @@ impl Prop for C15 {
     }
     fn cases(t: Tier) -> u64 {
         match t {
-            Tier::Quick => 300,
+            Tier::Quick => 2_000,
             Tier::Thorough => 6_000,
         }
     }
@@ -580,7 +634,7 @@ impl Prop for C15 {
         v
     }
     fn fixed_is_exhaustive() -> Option<&'static str> {
-        Some("the full configuration matrix (123 cells) x 2 fixed pipe schedules is enumerated completely")
+        Some("the full configuration matrix (125 cells) x 2 fixed pipe schedules is enumerated completely")
     }
     fn max_shrink_iters() -> u32 {
         200
